@@ -63,7 +63,12 @@ def core(ctx):
 
 @st.composite
 def _case(draw, ctx):
-    kind = draw(st.sampled_from(["count", "count", "count_cyc", "prob", "approx"]))
+    kind = draw(st.sampled_from(["count", "count", "count", "count_cyc", "count_cyc", "prob", "prob", "approx", "approx", "approx_wide"]))
+    if kind == "approx_wide":
+        # many startpoints, few gates: the sampling-set declaration gets long
+        spec = draw(S.circuit_spec(min_inputs=9, max_inputs=11, min_gates=1, max_gates=3, max_fanin=3, consts=False,
+                                   max_insts=draw(st.sampled_from([0, 0, 1]))))
+        return {"kind": "approx", "spec": spec, "assume": []}
     if kind == "count_cyc":
         spec = draw(S.circuit_spec(min_inputs=0, max_inputs=3, min_gates=2, max_gates=7, max_fanin=3,
                                    cyclic=True, max_insts=draw(st.sampled_from([0, 0, 1]))))
@@ -212,7 +217,7 @@ def check(case, ctx):
     if kind in ("count", "approx"):
         A = {n: bool(v) for n, v in case["assume"]}
         exp, nsp, flags = _ref_count(c, A)
-        if exp is None or nsp > 10:
+        if exp is None or nsp > 12:
             return {"nontrivial": False, "labels": labels + ["skipped_too_big"]}
         labels += sorted(flags)
         if kind == "count":
